@@ -87,12 +87,15 @@ def run(ctx, only_cases=None):
         bombs = [{"mode": "bomb", "ty": ty, "inflated": s, "cuts": ctx.rng.choice([[], [1, 1, 1, 1, 1, 4096]])}
                  for s in sizes for ty in ((0x60, 0x50, 0x41) if thorough else (0x60,))]
         disp = dispatch_cases(ctx.rng, 2000 if thorough else 200)
+    # the same hostile streams end to end through the adapter's real per-connection read loop
+    loops = [dict(c, mode="loop") for c in streams[:: (2 if thorough else 5)]] if only_cases is None else [c for c in only_cases if c["mode"] == "loop"]
+    l_out = vlib.run_harness(binary, loops, timeout=1500) if loops else []
     s_out = vlib.run_harness(binary, streams, timeout=1500) if streams else []
     b_out = vlib.run_harness(binary, bombs, timeout=1500) if bombs else []
     d_out = vlib.run_harness(binary, disp, timeout=1500) if disp else []
 
     nfail = 0
-    for c, o in list(zip(streams, s_out)) + list(zip(bombs, b_out)) + list(zip(disp, d_out)):
+    for c, o in list(zip(streams, s_out)) + list(zip(bombs, b_out)) + list(zip(disp, d_out)) + list(zip(loops, l_out)):
         bad = None
         if not o["prop_ok"]:
             bad = o["prop_msg"]
@@ -137,7 +140,7 @@ def run(ctx, only_cases=None):
     nontriv = {o["wire"] + str(c["cuts"][:8]) for c, o in zip(streams, s_out) if len(o["obs"]) >= 2 or (o["obs"] and o["obs"][-1]["n"] >= 5)}
     nontriv |= {json.dumps(c, sort_keys=True) for c, o in zip(disp, d_out) if o["dispatched"]}
     ctx.coverage.update({
-        "evaluations": len(streams) + len(bombs) + len(disp), "distinct_nontrivial": len(nontriv),
+        "evaluations": len(streams) + len(bombs) + len(disp) + len(loops), "read_loop_runs": len(loops), "distinct_nontrivial": len(nontriv),
         "rule": "hostile streams = mutations/truncations/adversarial length fields of valid packet streams (VERIF_SEED, one PRNG) through real "
                 "ReadPacket under watchdog + TotalAlloc measurement, every decoded packet then through real SessionManager.HandlePacket on a fresh "
                 "connection of a fully wired fixture inside recover(); gzip bombs built in the harness; dispatch cases = all 256 type bytes x "
